@@ -174,6 +174,11 @@ def check_stream(chk, prog, sim, name):
                         chk.violation("C10.value", "%s:nonarith:%d" % (key, k), "%s: payload after %d samples is not arithmetic: %s" % (name, k, e))
                         ok = False
                         continue
+                    lossy = N.lossy_ops(payload)
+                    if lossy:
+                        chk.violation("C10.value", "%s:lossy:%d" % (key, k), "%s: the value graph contains a truncating integer operation %r (nanoseconds are divided/truncated before the conversion to seconds)" % (name, lossy[0]),
+                                      fn=up["pretty"], file=loc(up["span"]))
+                        ok = False
                     for comp, e in ref.items():
                         if not A.equal(got[comp], e):
                             chk.violation("C10.value", "%s:%s:%d" % (key, comp, k), "%s: %s after %d samples is %s, expected %s" % (name, comp, k, A.show(got[comp]), A.show(e)),
@@ -271,6 +276,20 @@ def run(chk):
             raise AnchorMissing(name)
         check_stream(chk, prog, sim, name)
         check_interleaved(chk, prog, sim, name)
+    if chk.tier == "thorough":
+        # dimension checking enabled in a release profile (dim_check_release): the unit gates must still be there
+        import program as _p
+        p7 = _p.load_config("K7")
+        chk.configs.append("K7")
+        UNITS_ON[0] = units_enabled(p7)
+        s7 = S.Sim(p7)
+        for name in ("AccelerationToState", "VelocityToState", "PositionToState"):
+            before = len(chk.violations)
+            check_stream(chk, p7, s7, name)
+            for v in chk.violations[before:]:
+                v["key"] += "@K7"
+                v["what"] = "[release profile with dim_check_release] " + v["what"]
+        UNITS_ON[0] = units_enabled(prog)
     chk.assume("real-arithmetic model: forward error versus an f64 reference is NOT decided",
                "all samples of one run carry the same (symbolic) unit", "reset / absent / error events are C05's obligations; this check covers runs of present samples")
     chk.extra["std_models"] = sorted(sim.stats["models_used"])
